@@ -288,7 +288,11 @@ func (e *Engine) vspecCall(st *State, fr *Frame, name string, args []Val) ([]Out
 		return one(TextV{[]Piece{{K: "decs", T: asTerm(args[0])}}})
 	case "Raw":
 		s := args[0].(SliceV)
-		return one(TextV{[]Piece{{K: "raw", Base: s.Base, Off: s.Off, Len: s.Len}}})
+		arr := s.Arr
+		if arr == nil {
+			arr = st.arrOf(s.Base)
+		}
+		return one(TextV{[]Piece{{K: "raw", Base: s.Base, Off: s.Off, Len: s.Len, Arr: arr}}})
 	case "Empty":
 		return one(TextV{nil})
 	case "Float":
@@ -355,6 +359,23 @@ func (e *Engine) vspecCall(st *State, fr *Frame, name string, args []Val) ([]Out
 		}
 		e.installUnfold(st)
 		return one(MatchText(b.Text, want))
+	case "Window":
+		out, data := args[0].(SliceV), args[1].(SliceV)
+		lo, hi := asTerm(args[2]), asTerm(args[3])
+		zero := BVu(0, 64)
+		return one(And(SLe(zero, lo), SLe(lo, hi), SLe(hi, data.Len), Eq(out.Len, Sub(hi, lo)),
+			Or(Eq(hi, lo), And(Eq(out.Base, data.Base), Eq(out.Off, Add(data.Off, lo))))))
+	case "EqBytes", "EqStr":
+		a, b := args[0].(SliceV), args[1].(SliceV)
+		return one(e.eqBytes(st, a, b))
+	case "SameStr":
+		s := args[0].(SliceV)
+		a, _ := e.textOf(st, s)
+		e.installUnfold(st)
+		return one(MatchText(a, txt(args[1])))
+	case "Fresh":
+		out := args[0].(SliceV)
+		return one(Or(Eq(out.Base, BVu(0, 64)), ULt(alloc0, out.Base)))
 	case "FreshOrWithin":
 		out, data := args[0].(SliceV), args[1].(SliceV)
 		return one(Or(Eq(out.Base, BVu(0, 64)), Eq(out.Base, data.Base), ULt(alloc0, out.Base)))
@@ -402,4 +423,22 @@ func (e *Engine) installUnfold(st *State) {
 		}
 		return alts, true
 	}
+}
+
+
+// eqBytes: same length and same contents (extensional; trivial when both views read the same array at the same offset).
+func (e *Engine) eqBytes(st *State, a, b SliceV) *Term {
+	arrA, arrB := a.Arr, b.Arr
+	if arrA == nil {
+		arrA = st.arrOf(a.Base)
+	}
+	if arrB == nil {
+		arrB = st.arrOf(b.Base)
+	}
+	if arrA.String() == arrB.String() && a.Off.String() == b.Off.String() {
+		return Eq(a.Len, b.Len)
+	}
+	k := Sym(fresh("k"), 64)
+	body := Implies(And(SLe(BVu(0, 64), k), SLt(k, a.Len)), Eq(Select(arrA, Add(a.Off, k), 8), Select(arrB, Add(b.Off, k), 8)))
+	return And(Eq(a.Len, b.Len), Forall(k, body))
 }
